@@ -88,7 +88,7 @@ func zzClaimReconciler(c client.Client, ssa bool) *Reconciler {
 // claim.
 //
 //gosym:harness
-//gosym:cover fault-hit stale-read other-claims-xr bound deleted-claim
+//gosym:cover fault-hit stale-read other-claims-xr bound deleted-claim concurrent-write
 func HarnessC06Bind() {
 	s := kube.New()
 	cm := claim.New(claim.WithGroupVersionKind(zzClaimGVK))
@@ -167,17 +167,45 @@ func HarnessC06Bind() {
 
 	s.FaultAt = zz.Choose("fault.at", zz.Bound(10, 12)) - 1
 	s.FaultKind = 1 + zz.Choose("fault.kind", 2)
+	if s.FaultAt < 0 && !stale {
+		// instead of a fault: another actor writes the claim immediately before
+		// the reconcile's j-th API call (what the reconciler holds is stale
+		// from then on)
+		raceAt := zz.Choose("otherWriter.at", zz.Bound(10, 12)) - 1
+		s.BeforeCall = func(n int) {
+			if n == raceAt {
+				zz.Cover("concurrent-write")
+				s.Touch("example.org", "Claim", "team", "cm")
+			}
+		}
+	}
 	xrsBefore := s.Count("example.org", "XR")
 	_, _ = r.Reconcile(context.Background(), req)
 	if s.Faulted {
 		zz.Cover("fault-hit")
 	}
 	s.FaultAt = -1
+	s.BeforeCall = nil
 	if stale {
 		// the stale claim update must be refused: no XR created or patched
 		zz.Assert("stale-read-creates-no-xr", s.Count("example.org", "XR") == xrsBefore)
 	}
 	c.stale = nil // the cache catches up
+
+	if zz.Tier() == "thorough" && s.Faulted {
+		// thorough: the first retry is cut short by a second failure
+		s.Faulted = false
+		s.FaultAt = s.Calls() + zz.Choose("fault2.at", 10) - 1
+		if s.FaultAt < s.Calls() {
+			s.FaultAt = -1
+		}
+		s.FaultKind = 1 + zz.Choose("fault2.kind", 2)
+		_, _ = r.Reconcile(context.Background(), req)
+		if s.Faulted {
+			zz.Cover("second-fault-hit")
+		}
+		s.FaultAt = -1
+	}
 
 	// retry
 	_, err := r.Reconcile(context.Background(), req)
